@@ -600,4 +600,128 @@ theorem cyclic_order_dependent_counterexample :
 example : normSegs ["tmp", "d", "sub", "..", ".", "p1.xsd"] = ["tmp", "d", "p1.xsd"] := by decide
 example : Plain "p1.xsd" := by unfold Plain; decide
 
+
+/- =============================================================================================
+   xs:import statements of one document (loaders.py, SchemaLoader.load_declared_schemas): what is recorded as
+   imported (the namespaces that may be referenced by QName) and what is loaded, for imports with and WITHOUT a
+   schemaLocation, in every order.
+   ============================================================================================= -/
+namespace Imports
+
+/-- the part of the loader state that xs:import statements of ONE document write -/
+structure St where
+  recorded : List Nat   -- schema.imported_namespaces
+  loaded : List Nat     -- namespaces registered in the maps
+deriving DecidableEq, Repr
+
+/-- one xs:import child `(namespace, has a schemaLocation)`: the namespace is ALWAYS recorded; it is loaded
+    (with everything its document imports, `clo`) only when it is missing and a location is given -/
+def step (clo : Nat → List Nat) (s : St) (imp : Nat × Bool) : St :=
+  { recorded := s.recorded ++ [imp.1],
+    loaded := if imp.2 && !(s.loaded.contains imp.1) then s.loaded ++ clo imp.1 else s.loaded }
+
+def run (clo : Nat → List Nat) (l : List (Nat × Bool)) : St := l.foldl (step clo) ⟨[], []⟩
+
+/-- `clo x` = the namespaces loaded through the document of `x`: contains `x`, transitively closed -/
+structure IsClosure (clo : Nat → List Nat) : Prop where
+  self : ∀ x, x ∈ clo x
+  trans : ∀ x y, y ∈ clo x → ∀ z, z ∈ clo y → z ∈ clo x
+
+def Closed (clo : Nat → List Nat) (L : List Nat) : Prop := ∀ y, y ∈ L → ∀ z, z ∈ clo y → z ∈ L
+
+theorem foldl_recorded (clo : Nat → List Nat) (l : List (Nat × Bool)) (s : St) :
+    (l.foldl (step clo) s).recorded = s.recorded ++ l.map Prod.fst := by
+  induction l generalizing s with
+  | nil => simp
+  | cons a l ih => simp [List.foldl_cons, ih, step]
+
+/-- imported_namespaces is exactly the list of namespace attributes: no dependence on locations or on what is loaded -/
+theorem imports_recorded (clo : Nat → List Nat) (l : List (Nat × Bool)) :
+    (run clo l).recorded = l.map Prod.fst := by
+  simp [run, foldl_recorded]
+
+/-- every namespace named by an xs:import may be referenced, with or without a schemaLocation, in every position -/
+theorem import_refs_resolvable (clo : Nat → List Nat) (l : List (Nat × Bool)) (imp : Nat × Bool) (h : imp ∈ l) :
+    imp.1 ∈ (run clo l).recorded := by
+  rw [imports_recorded]; exact List.mem_map.2 ⟨imp, h, rfl⟩
+
+theorem imports_recorded_perm (clo : Nat → List Nat) (l₁ l₂ : List (Nat × Bool)) (hp : l₁.Perm l₂) (ns : Nat) :
+    ns ∈ (run clo l₁).recorded ↔ ns ∈ (run clo l₂).recorded := by
+  rw [imports_recorded, imports_recorded]; exact (hp.map Prod.fst).mem_iff
+
+theorem step_loaded (clo : Nat → List Nat) (s : St) (hs : Closed clo s.loaded) (imp : Nat × Bool) (z : Nat) :
+    z ∈ (step clo s imp).loaded ↔ z ∈ s.loaded ∨ (imp.2 = true ∧ z ∈ clo imp.1) := by
+  unfold step
+  cases h2 : imp.2 with
+  | false => simp
+  | true =>
+    by_cases hc : imp.1 ∈ s.loaded
+    · simp [hc]
+      intro hz; exact hs _ hc _ hz
+    · simp [hc]
+
+theorem step_closed (clo : Nat → List Nat) (hc : IsClosure clo) (s : St) (hs : Closed clo s.loaded) (imp : Nat × Bool) :
+    Closed clo (step clo s imp).loaded := by
+  intro y hy z hz
+  rw [step_loaded clo s hs] at hy ⊢
+  cases hy with
+  | inl h => exact Or.inl (hs y h z hz)
+  | inr h => exact Or.inr ⟨h.1, hc.trans _ _ h.2 _ hz⟩
+
+theorem foldl_loaded (clo : Nat → List Nat) (hc : IsClosure clo) (l : List (Nat × Bool)) (s : St)
+    (hs : Closed clo s.loaded) (z : Nat) :
+    z ∈ (l.foldl (step clo) s).loaded ↔ z ∈ s.loaded ∨ ∃ x, x ∈ l ∧ x.2 = true ∧ z ∈ clo x.1 := by
+  induction l generalizing s with
+  | nil => simp
+  | cons a l ih =>
+    rw [List.foldl_cons, ih _ (step_closed clo hc s hs a), step_loaded clo s hs]
+    constructor
+    · rintro ((h | h) | ⟨x, hx, h⟩)
+      · exact Or.inl h
+      · exact Or.inr ⟨a, List.mem_cons_self, h⟩
+      · exact Or.inr ⟨x, List.mem_cons_of_mem _ hx, h⟩
+    · rintro (h | ⟨x, hx, h⟩)
+      · exact Or.inl (Or.inl h)
+      · cases List.mem_cons.1 hx with
+        | inl e => subst e; exact Or.inl (Or.inr h)
+        | inr hx => exact Or.inr ⟨x, hx, h⟩
+
+/-- what is loaded = the union of the closures of the LOCATED imports: a set-function of the statements -/
+theorem imports_loaded_spec (clo : Nat → List Nat) (hc : IsClosure clo) (l : List (Nat × Bool)) (z : Nat) :
+    z ∈ (run clo l).loaded ↔ ∃ x, x ∈ l ∧ x.2 = true ∧ z ∈ clo x.1 := by
+  have := foldl_loaded clo hc l ⟨[], []⟩ (by intro y hy; cases hy) z
+  simpa [run] using this
+
+/-- … hence the order of the xs:import children changes neither what is loaded nor what may be referenced -/
+theorem imports_order_independent (clo : Nat → List Nat) (hc : IsClosure clo) (l₁ l₂ : List (Nat × Bool))
+    (hp : l₁.Perm l₂) (z : Nat) :
+    (z ∈ (run clo l₁).loaded ↔ z ∈ (run clo l₂).loaded) ∧
+    (z ∈ (run clo l₁).recorded ↔ z ∈ (run clo l₂).recorded) := by
+  refine ⟨?_, imports_recorded_perm clo l₁ l₂ hp z⟩
+  rw [imports_loaded_spec clo hc, imports_loaded_spec clo hc]
+  constructor
+  · rintro ⟨x, hx, h⟩; exact ⟨x, hp.mem_iff.1 hx, h⟩
+  · rintro ⟨x, hx, h⟩; exact ⟨x, hp.mem_iff.2 hx, h⟩
+
+/-- a location-less import of a namespace that a located import loads transitively is satisfied in every position -/
+theorem locationless_import_satisfied (clo : Nat → List Nat) (hc : IsClosure clo) (l : List (Nat × Bool))
+    (ns via : Nat) (hv : (via, true) ∈ l) (hr : ns ∈ clo via) (hi : (ns, false) ∈ l) :
+    ns ∈ (run clo l).loaded ∧ ns ∈ (run clo l).recorded :=
+  ⟨(imports_loaded_spec clo hc l ns).2 ⟨(via, true), hv, rfl, hr⟩, import_refs_resolvable clo l (ns, false) hi⟩
+
+/-- a loader that skips a location-less import whose namespace is already loaded BEFORE recording it -/
+def stepSkip (clo : Nat → List Nat) (s : St) (imp : Nat × Bool) : St :=
+  if !imp.2 && s.loaded.contains imp.1 then s else step clo s imp
+
+def exClo : Nat → List Nat := fun x => if x = 0 then [0, 1] else [x]
+
+/-- … records [A] for the order A(located), B(no location) and [B, A] for the other one -/
+theorem skip_before_record_counterexample :
+    ([(0, true), (1, false)].foldl (stepSkip exClo) ⟨[], []⟩).recorded = [0] ∧
+    ([(1, false), (0, true)].foldl (stepSkip exClo) ⟨[], []⟩).recorded = [1, 0] ∧
+    (run exClo [(0, true), (1, false)]).recorded = [0, 1] := by
+  decide
+
+end Imports
+
 end XsVerif.Props.C09
